@@ -387,8 +387,8 @@ TCycle ==
     /\ UNCHANGED <<ps, pgs, metas, live, shFree, shPend, readers, w, dirty, dec, initing, fh>>
 
 TInitFile ==
-    /\ l <= Len(Rec) /\ Rec[l].ev \in {"init:created", "init:synced"} /\ l' = l + 1
-    /\ initing' = (Rec[l].ev = "init:created")
+    /\ l <= Len(Rec) /\ Rec[l].ev \in {"init:enter", "init:synced"} /\ l' = l + 1
+    /\ initing' = (Rec[l].ev = "init:enter")
     /\ UNCHANGED <<ps, pgs, metas, live, shFree, shPend, readers, w, dirty, dec, use, fh>>
 
 \* C06: the bytes (and the length) of the file change only through the writes of a commit or of
@@ -401,7 +401,7 @@ TFileHash ==
     /\ fh' = [h |-> Ev.h, len |-> Ev.len, wrote |-> FALSE]
     /\ UNCHANGED <<ps, pgs, metas, live, shFree, shPend, readers, w, dirty, dec, use, initing>>
 
-Known == {"reset", "seed", "cycle", "filehash", "init:created", "init:synced", "open:meta", "tx:meta_read", "fl:release", "tx:ready", "drop:enter", "fl:free", "fl:alloc",
+Known == {"reset", "seed", "cycle", "filehash", "init:enter", "init:synced", "open:meta", "tx:meta_read", "fl:release", "tx:ready", "drop:enter", "fl:free", "fl:alloc",
           "commit:fl_alloc", "commit:sized", "write", "sync", "commit:published", "commit:done", "drop:done", "parse"}
 TOther ==
     /\ l <= Len(Rec) /\ Rec[l].ev \notin Known /\ l' = l + 1
